@@ -162,6 +162,24 @@ def C12(tier, seed):
     from .core import Run
 
     q = tier == "quick"
+    # the DataFrame model against real pandas, on the importer's own load_source (a disagreement makes THIS check
+    # inconclusive; it is not part of the global set-up because a change to load_source may use pandas API that the
+    # model does not have)
+    import random
+
+    from sx import rt as _rt
+    from sx.selftest import frame_conformance
+
+    _rt.set_cur(_rt.Ctx())
+    try:
+        n_cmp, err = frame_conformance(random.Random(20261001 + seed))
+    except Exception as e:  # noqa: BLE001
+        n_cmp, err = 0, f"{type(e).__name__}: {e}"
+    finally:
+        _rt.set_cur(None)
+    model_note = f"DataFrame model vs real pandas on load_source: {n_cmp} concrete tables compared" + (
+        f", DISAGREEMENT: {err}" if err else ", all agree")
+    print("C12 " + model_note)
     ids3 = [3, 1, 7] if q else [3, 1, 7, 12]
     m3 = 2 if q else 3
     ids5 = [3, 1, 7] if q else [8, 3, 1, 7, 12]
@@ -218,13 +236,14 @@ def C12(tier, seed):
                         "store with row ids %s, every set of <= %d links with endpoints over the row ids and one unknown "
                         "id (duplicates, self links, dangling links included); every cell of every property column an "
                         "unconstrained integer / real" % (cfg["ids"], cfg.get("M", 2))))
-    for name, cfg in Cv:
+    for name, cfg in ([] if err else Cv):
         tags = ("malformed",) if (name.startswith("duplicate") or cfg.get("expect_missing_required")) else (
             "imported", "malformed")
         runs.append(Run("import:csv:" + name, importer.csv_harness, cfg, importer.csv_replay, tags,
                         "table with row ids %s, every row's parent over {each row id, an unknown id, missing, -1 / ''}; "
                         "every other cell an unconstrained integer / real" % (cfg["ids"],)))
-    return run_property("C12", tier, runs, explanation=R.EXPL, seed=seed, assumptions=[
+    code = run_property("C12", tier, runs, explanation=R.EXPL, seed=seed, extra=dict(
+        dataframe_model_conformance=model_note), assumptions=[
         "row ids, link endpoints, column names and the key mapping are concrete per run or decided by engine forks over "
         "the stated finite sets (ids and links are dict keys / numpy id arrays inside the importer); the cell VALUES of "
         "time, coordinates and custom properties are unconstrained symbolic integers / reals",
@@ -239,6 +258,11 @@ def C12(tier, seed):
         "auto-inferred key mapping is C17"],
         stubs=["geff read_to_memory / GeffMetadata.read -> symbolic store", "pandas DataFrame -> _Frame model",
                "infer_dtype_from_array -> declared dtype of the symbolic column"])
+    if err and code == 0:
+        print("INCONCLUSIVE property=C12: the DataFrame model disagrees with real pandas on the current load_source; the "
+              "CSV route was not checked")
+        return 3
+    return code
 
 
 def C14(tier, seed):
@@ -344,7 +368,14 @@ def C08(tier, seed):
                   ("UserDeleteNode", 2, G2, {"scale": "iso", "enable_mid": "ellipse_axis_radii"}),
                   ("UserAddNode", 2, G2, {"scale": "iso", "enable_mid": "ellipse_axis_radii"})]
         en = [(k, 3, G3, {"scale": "iso"}) for k in ("ellipse_axis_radii", "circularity", "perimeter")]
-    return _seg("C08", tier, seed, specs, en)
+    from harness import kernels
+    from .core import Run
+
+    kr = [Run("kernel:regionprops_extended:%s" % ("2x3" if tier == "quick" else "2x2x2"), kernels.rp_harness,
+              dict(shape=(2, 3) if tier == "quick" else (2, 2, 2), labels=2), kernels.rp_replay, ("kernel_ran",),
+              "the real regionprops_extended on EVERY label frame of the stated size with labels 0..2 (realised), four "
+              "spacings: area = pixel count x voxel size, centroid = scaled mean coordinate, independent of other labels")]
+    return _seg("C08", tier, seed, specs, en, extra_runs=kr)
 
 
 def C09(tier, seed):
@@ -360,7 +391,15 @@ def C09(tier, seed):
                  ("UserSwapPredecessors", 4, G3, a), ("UserAddNode", 3, G3, a), ("paint", 2, G3, {"enable_mid": "iou"}),
                  ("UserDeleteEdge", 3, G3, {"enable_mid": "iou"}), ("UserAddEdge", 3, G3, {"enable_mid": "iou"})]
         en = [("iou", 4, G3, {}), ("iou", 3, (4, 1, 2), {}), ("iou", 4, G3, {"iou": True, "stale_keys": ["iou"]})]
-    return _seg("C09", tier, seed, specs, en)
+    from harness import kernels
+    from .core import Run
+
+    kr = [Run("kernel:_compute_ious:%s" % ("1x3" if tier == "quick" else "2x2"), kernels.ious_harness,
+              dict(which="annotators", shape=(1, 3) if tier == "quick" else (2, 2), labels=2 if tier == "quick" else 3),
+              kernels.ious_replay, ("kernel_ran",),
+              "the real annotators._compute_ious on EVERY pair of label frames of the stated size (realised): pairs and "
+              "values equal |A&B| / |A|B| of the overlapping labels")]
+    return _seg("C09", tier, seed, specs, en, extra_runs=kr)
 
 
 def _export_runs(prop, tier, ops):
@@ -450,6 +489,13 @@ def C18(tier, seed):
                     "9 detections in a concrete layout of 3 frames x 3 (node ids up to 8: Python set-order and "
                     "'fewer than half of the nodes' effects), frame 0 at concrete far positions, the six others "
                     "symbolic in [0,10], r <= 20, 1-D"))
+    from harness import kernels
+
+    runs.append(Run("kernel:_compute_ious:%s" % ("1x3" if q else "2x2"), kernels.ious_harness,
+                    dict(which="candidate_graph", shape=(1, 3) if q else (2, 2), labels=2 if q else 3, prop="C18"),
+                    kernels.ious_replay, ("kernel_ran",),
+                    "the real candidate_graph.iou._compute_ious on EVERY pair of label frames of the stated size "
+                    "(realised): pairs and values equal the definition"))
     if not q:
         runs.append(Run("points3d:M=3", candgraph.points_harness, dict(M=3, frames=3, dims=3),
                         candgraph.points_replay, ("built",), "3 detections in 3 frames, 3 spatial dimensions"))
@@ -590,6 +636,10 @@ def replay_file(prop, path):
         from harness import candgraph
 
         fn = candgraph.points_replay if run.startswith("points") else candgraph.seg_replay
+    elif run.startswith("kernel:"):
+        from harness import kernels
+
+        fn = kernels.rp_replay if "regionprops" in run else kernels.ious_replay
     elif run.startswith("roundtrip:"):
         from harness import roundtrip
 
